@@ -5,6 +5,7 @@ package encoding
 import (
 	"bytes"
 	"io"
+	"math"
 
 	"github.com/lugu/qiloop/type/value"
 
@@ -21,7 +22,44 @@ func C08Reflect() {
 	var enc []byte
 	var decode func(r io.Reader) error
 	label := ""
-	switch sym.Choose("shape", 6) {
+	switch sym.Choose("shape", 10) {
+	case 6:
+		v := []float32{math.Float32frombits(sym.F32("f0")), math.Float32frombits(sym.F32("f1")), math.Float32frombits(sym.F32("f2"))}
+		var buf bytes.Buffer
+		sym.Assert(NewEncoder(nil, &buf).Encode(v) == nil, "encode-ok")
+		enc = buf.Bytes()
+		decode = func(r io.Reader) error { var back []float32; return NewDecoder(nil, r).Decode(&back) }
+		label = "truncated-float32-vector"
+	case 7:
+		v := []float64{math.Float64frombits(sym.F64("d0")), math.Float64frombits(sym.F64("d1"))}
+		var buf bytes.Buffer
+		sym.Assert(NewEncoder(nil, &buf).Encode(v) == nil, "encode-ok")
+		enc = buf.Bytes()
+		decode = func(r io.Reader) error { var back []float64; return NewDecoder(nil, r).Decode(&back) }
+		label = "truncated-float64-vector"
+	case 8:
+		v := []int16{sym.I16("w0"), sym.I16("w1"), sym.I16("w2")}
+		var buf bytes.Buffer
+		sym.Assert(NewEncoder(nil, &buf).Encode(v) == nil, "encode-ok")
+		enc = buf.Bytes()
+		decode = func(r io.Reader) error { var back []int16; return NewDecoder(nil, r).Decode(&back) }
+		label = "truncated-int16-vector"
+	case 9:
+		v := struct {
+			N uint8
+			F []float32
+		}{sym.U8("n"), []float32{math.Float32frombits(sym.F32("f0")), math.Float32frombits(sym.F32("f1"))}}
+		var buf bytes.Buffer
+		sym.Assert(NewEncoder(nil, &buf).Encode(v) == nil, "encode-ok")
+		enc = buf.Bytes()
+		decode = func(r io.Reader) error {
+			var back struct {
+				N uint8
+				F []float32
+			}
+			return NewDecoder(nil, r).Decode(&back)
+		}
+		label = "truncated-struct-ending-with-float32-vector"
 	case 4:
 		// a dynamic value as the LAST thing decoded (cut inside its body)
 		v := []value.Value{value.Long(sym.I64("l")), value.String(sym.Str("vs", 2))}
@@ -86,20 +124,34 @@ func C07Reflect() {
 	n := sym.Choose("n", 13)
 	in := sym.Bytes("in", n)
 	target := sym.Choose("target", 4)
+	// the destination is fresh, or a holder that still contains an earlier (valid, non-empty) result
+	reused := sym.Bool("destination-already-holds-a-value")
 	sym.Bounded(16<<20+64*n, n+8, func() {
 		var err error
 		switch target {
 		case 0:
 			var v []string
+			if reused {
+				v = []string{"x"}
+			}
 			err = NewDecoder(nil, bytes.NewReader(in)).Decode(&v)
 		case 1:
 			var v map[uint32]string
+			if reused {
+				v = map[uint32]string{1: "x"}
+			}
 			err = NewDecoder(nil, bytes.NewReader(in)).Decode(&v)
 		case 2:
 			var v zzMixed
+			if reused {
+				v.L = []bool{true}
+			}
 			err = NewDecoder(nil, bytes.NewReader(in)).Decode(&v)
 		default:
 			var v [][]uint16
+			if reused {
+				v = [][]uint16{{1}}
+			}
 			err = NewDecoder(nil, bytes.NewReader(in)).Decode(&v)
 		}
 		if err == nil {
